@@ -9,4 +9,10 @@ static int al(int n) { char *p = __builtin_alloca(n); int *q = __builtin_alloca(
 static int alloop(void) { int i, s = 0; char *ps[5]; for (i = 0; i < 5; ++i) { ps[i] = __builtin_alloca(16); memset(ps[i], i + 1, 16); } for (i = 0; i < 5; ++i) s += ps[i][0] + ps[i][15]; return s; }
 static int aligned(void) { _Alignas(32) char a32[5] = "abcd"; _Alignas(64) int a64 = 7; _Alignas(16) short a16[3] = { 1, 2, 3 }; char c = 'c'; _Alignas(long) char al = 'l'; P((unsigned long)a32 % 32); P((unsigned long)&a64 % 64); P((unsigned long)a16 % 16); P((unsigned long)&al % 8); return a32[3] + a64 + a16[2] + c + al; }
 static int ptrvla(int n) { int m[n][3]; int (*p)[3] = m; int (*q)[n][3] = &m; int i; for (i = 0; i < n * 3; ++i) (&m[0][0])[i] = i; P(p[1][2]); P((*q)[n - 1][0]); P(sizeof *q); P(&m[n - 1] - &m[0]); P(p + 1 == &m[1]); return (int)(sizeof m / sizeof m[0]); }
-int main(void) { int a[7]; P(fill(7, a)); P(vl(1)); P(vl(4)); P(vl(9)); P(growing()); P(sideeffect()); P(al(1)); P(al(17)); P(al(100)); P(alloop()); P(aligned()); P(ptrvla(2)); P(ptrvla(5)); return 0; }
+/* lengths whose evaluation opens blocks of its own (?:, &&, ||, a call in a condition), and variably modified declarations right after a jump */
+static int condlen(int n, int m) { int a[n > 0 ? n : 1]; char b[n && m ? n + m : 2]; long c[(n || m) + 1][(m > n ? m : n) + 1]; int i; for (i = 0; i < (int)(sizeof a / sizeof *a); ++i) a[i] = i; b[0] = 1; c[0][0] = 2;
+	P(sizeof a); P(sizeof b); P(sizeof c); P(sizeof(int[n ? m + 1 : n + 3])); return a[sizeof a / sizeof *a - 1] + b[0] + (int)c[0][0]; }
+static int afterjump(int n) { int r = 0; if (n > 100) goto out; for (;;) { int v[n + 1]; v[n] = n; r += v[n]; if (r > 3) break; continue; { int dead[n ? n : 1]; dead[0] = 1; r += dead[0]; } }
+	switch (n) { case 1: { int w[n * 2]; w[1] = 5; r += w[1] + (int)sizeof w; break; } default: r += 1; }
+out:	{ int z[r > 0 ? r : 1]; z[0] = r; return z[0] + (int)(sizeof z / sizeof *z); } }
+int main(void) { P(condlen(3, 0)); P(condlen(0, 0)); P(condlen(2, 5)); P(afterjump(1)); P(afterjump(2)); P(afterjump(200)); int a[7]; P(fill(7, a)); P(vl(1)); P(vl(4)); P(vl(9)); P(growing()); P(sideeffect()); P(al(1)); P(al(17)); P(al(100)); P(alloop()); P(aligned()); P(ptrvla(2)); P(ptrvla(5)); return 0; }
